@@ -55,10 +55,24 @@ def first_diff(a, b):
     return "%s.fields" % a[0]
 
 
-def check_text(t, text):
+def _parse_with_little_stack(text, frames):
+    """Parse in a process whose recursion limit leaves `frames` frames above the caller (flat operator
+    runs need fewer than 60): grouping must not depend on how much stack a deployment allows."""
+    import inspect
+    import sys
+    old = sys.getrecursionlimit()
+    sys.setrecursionlimit(len(inspect.stack(0)) + frames)
+    try:
+        a = lib.parse_plain(text)      # only the library's own work runs with the lowered limit
+    finally:
+        sys.setrecursionlimit(old)
+    return lib.with_provenance(a, text)
+
+
+def check_text(t, text, frames=None):
     """None if parse(text) decodes to t, else (bucket, detail)."""
     try:
-        ast = lib.parse(text)
+        ast = _parse_with_little_stack(text, frames) if frames else lib.parse(text)
     except Exception as e:  # any exception on a valid filter violates C05
         return ("exception:" + lib.exc_bucket(e), "text=%r -> %s: %s" % (text, type(e).__name__, e))
     try:
@@ -85,6 +99,10 @@ def check_case(case):
         text = printer.render(t, RandomStyle(case["style_seed"], mode=base, case=False,
                                              redundant=True))
     r = check_text(t, text)
+    if not r and case.get("frames"):
+        r = check_text(t, text, case["frames"])
+        if r:
+            r = ("little-stack:" + r[0], "with %d frames of stack: %s" % (case["frames"], r[1]))
     return r
 
 
@@ -180,6 +198,8 @@ def run_task(task, seed, acc):
         for t in chain_terms(task["tier"]):
             for mode in ("minimal", "full"):
                 case = {"term": to_json(t), "mode": mode}
+                if mode == "minimal" and t[0] in ("bool", "bin", "cmp") and t[2][0] == t[0]:
+                    case["frames"] = 120        # left-nested runs are flat text: also parsed with little stack
                 r = check_case(case)
                 acc.case(key=digest(repr(t) + mode), nontrivial=True,
                          sample={"text": printer.render(t, STYLES[mode]())[:120], "mode": mode})
